@@ -123,28 +123,42 @@ func (m *Modifier) ModifyResponse(res *http.Response) error {
 	sranges := strings.Split(strings.TrimLeft(rh, "bytes="), ",")
 	var ranges [][]int
 	for _, rng := range sranges {
-		if strings.HasSuffix(rng, "-") {
-			rng = fmt.Sprintf("%s%d", rng, len(m.body)-1)
-		}
-
 		rs := strings.Split(rng, "-")
 		if len(rs) != 2 {
-			res.StatusCode = http.StatusRequestedRangeNotSatisfiable
-			return nil
+			return m.rangeNotSatisfiable(res)
 		}
-		start, err := strconv.Atoi(strings.TrimSpace(rs[0]))
-		if err != nil {
-			return err
-		}
+		first, last := strings.TrimSpace(rs[0]), strings.TrimSpace(rs[1])
 
-		end, err := strconv.Atoi(strings.TrimSpace(rs[1]))
-		if err != nil {
-			return err
-		}
-
-		if start > end {
-			res.StatusCode = http.StatusRequestedRangeNotSatisfiable
-			return nil
+		var start, end int
+		switch {
+		case first == "":
+			// Suffix range: the last n bytes.
+			n, err := strconv.Atoi(last)
+			if err != nil || n <= 0 || len(m.body) == 0 {
+				return m.rangeNotSatisfiable(res)
+			}
+			if n > len(m.body) {
+				n = len(m.body)
+			}
+			start, end = len(m.body)-n, len(m.body)-1
+		default:
+			var err error
+			if start, err = strconv.Atoi(first); err != nil {
+				return m.rangeNotSatisfiable(res)
+			}
+			end = len(m.body) - 1
+			if last != "" {
+				if end, err = strconv.Atoi(last); err != nil {
+					return m.rangeNotSatisfiable(res)
+				}
+			}
+			if start < 0 || start > end || start >= len(m.body) {
+				return m.rangeNotSatisfiable(res)
+			}
+			// A last position beyond the end means "up to the final byte".
+			if end >= len(m.body) {
+				end = len(m.body) - 1
+			}
 		}
 
 		ranges = append(ranges, []int{start, end})
@@ -192,6 +206,17 @@ func (m *Modifier) ModifyResponse(res *http.Response) error {
 	res.ContentLength = int64(len(mpbody.Bytes()))
 	res.Body = ioutil.NopCloser(bytes.NewReader(mpbody.Bytes()))
 	res.Header.Set("Content-Type", fmt.Sprintf("multipart/byteranges; boundary=%s", m.boundary))
+
+	return nil
+}
+
+// rangeNotSatisfiable turns res into a 416 with an empty body. The original
+// body has already been closed, so it must not be left in place.
+func (m *Modifier) rangeNotSatisfiable(res *http.Response) error {
+	res.StatusCode = http.StatusRequestedRangeNotSatisfiable
+	res.Header.Set("Content-Range", fmt.Sprintf("bytes */%d", len(m.body)))
+	res.ContentLength = 0
+	res.Body = ioutil.NopCloser(bytes.NewReader(nil))
 
 	return nil
 }
